@@ -8,6 +8,10 @@ C12.laws interprets ComputationCache from source over every sequence of registra
 chromosome changes and queries up to a depth: each getter returns what the registered
 functions compute on the chromosome's current state (no memoised derivative survives).
 Interleavings of clone / crossover histories on shared objects are not decided.
+Further clauses (added later): C12.laws interprets ComputationCache over every sequence (depth 3 quick / 4
+thorough) of registrations, chromosome changes and queries: each getter returns what the registered functions
+compute on the current state; set_fitness_values (local search restoring a test) keeps fitness and covered
+verdict in agreement.
 """
 
 from __future__ import annotations
